@@ -483,6 +483,7 @@ struct Cfg
   bool kappa = false;
   float pf = 1;
   float gamma = 2, eps = 0.1f, scalar = 1; // RDP, logcosh
+  bool large_logcosh_argument = false;
   double eta = 1, alpha = 1;               // PLS
 };
 
@@ -577,7 +578,9 @@ to_d(const std::vector<float>& v)
 static bool
 tol_ok(double got, double ref, double band)
 {
-  return vf::close_enough(got, ref, band);
+  // + an absolute quantum for float32 underflow: factors such as sech^2(x) = 4 exp(-2x) of the log-cosh Hessian leave the
+  // float range for x > ~50 and are flushed to 0 before they are multiplied by weights / scalar^2 / penalisation factor (< 1e7)
+  return vf::close_enough(got, ref, band + 1e-35);
 }
 
 // random image content
@@ -696,6 +699,12 @@ run_case(Ctx& ctx)
   c.gamma = rng.coin(0.15) ? 0.f : static_cast<float>(rng.uniform(0.1, 5));
   c.eps = static_cast<float>(scale * std::exp(rng.uniform(std::log(1e-3), std::log(1.))));
   c.scalar = static_cast<float>(std::exp(rng.uniform(std::log(0.05), std::log(20.))) / scale);
+  // log-cosh: also scalar * |difference| well beyond 30, where the implementation switches to the asymptote |x| + log(1/2)
+  if (c.type == PLC && rng.coin(0.3))
+    {
+      c.scalar = static_cast<float>(std::exp(rng.uniform(std::log(30.), std::log(400.))) / scale);
+      c.large_logcosh_argument = true;
+    }
   c.alpha = scale * rng.uniform(0.05, 2);
   const double ascale = rng.coin() ? 1 : 100;
   c.eta = ascale * rng.uniform(0.05, 2);
@@ -852,6 +861,8 @@ run_case(Ctx& ctx)
   const bool nonuniform = !uniform_content(lam);
   ctx.nontrivial = N >= 2 && nonuniform;
   ctx.count(std::string("prior_") + (c.type == PQ ? "quadratic" : c.type == PRDP ? "rdp" : c.type == PLC ? "logcosh" : "pls"));
+  if (c.large_logcosh_argument)
+    ctx.count("cfg_logcosh_scalar_times_difference_beyond_30");
   if (g.nz == 1 || g.ny == 1 || g.nx == 1)
     ctx.count("singleton_axis_cases");
   if (N == 1)
@@ -1268,7 +1279,8 @@ run_case(Ctx& ctx)
         std::copy(row.begin(), row.end(), Hs.begin() + size_t(j) * N);
       }
   }
-  auto hband = [&](int j, int k) { return vf::band32(NOPS_TERM + (j == k ? nterms[j] : 0), Aref[size_t(j) * N + k]); };
+  // (+ the float32 underflow quantum, see tol_ok)
+  auto hband = [&](int j, int k) { return vf::band32(NOPS_TERM + (j == k ? nterms[j] : 0), Aref[size_t(j) * N + k]) + 1e-35; };
   bool stir_centre = false;
   {
     // diagonal first: detect the centre-weight term (w_0 * psi20(x,x) * kappa^2 has no counterpart in the value)
@@ -1405,7 +1417,7 @@ run_case(Ctx& ctx)
           // plus the error already carried by the rows themselves
           const double bj = vf::band32(2 * nterms[j] + NOPS_TERM, ab + Aref[size_t(j) * N + j] * std::fabs(v[j]))
                             + vf::band32(nterms[j] + NOPS_TERM, ab);
-          if (std::fabs(hv[j] - s) > bj + 4 * EPS32 * std::fabs(s))
+          if (std::fabs(hv[j] - s) > bj + 4 * EPS32 * std::fabs(s) + 1e-32) // 1e-32: underflow quantum times |v| <= 1e3
             {
               ctx.violation(pn + ":hessian-times-input-differs-from-rows",
                             vf::fmt("%s accumulate_Hessian_times_input %.9g, sum_k H[j][k] v[k] from compute_Hessian %.9g, band %.3g (vector kind %d)",
